@@ -35,9 +35,39 @@ def dbOf (rs : Bool) (acc : List Sig) : SqlDb := acc.foldl (push rs) SqlDb.empty
 
 def SameScaled (acc : List Sig) : Prop := ∀ f, acc.head? = some f → ∀ a ∈ acc, a.scaled = f.scaled
 
-theorem insert_eq (rs : Bool) (acc : List Sig) (db : SqlDb) (ss : Sig) :
-    SqlIndex.insert rs { db := db, scaled := acc.head?.map (·.scaled) } ss =
-      if sqlOk acc ss then .ok { db := push rs db ss, scaled := (acc ++ [ss]).head?.map (·.scaled) }
+/-- the largest rowid is the number of rows (ids are 1..n: nothing is ever deleted) -/
+def MaxId (db : SqlDb) : Prop := (db.sketches.map (·.id)).foldl max 0 = db.sketches.length
+
+theorem nextRowid_eq (db : SqlDb) (h : MaxId db) : nextRowid db = db.sketches.length + 1 := by
+  unfold nextRowid; rw [h]
+
+theorem maxId_push (rs : Bool) (db : SqlDb) (ss : Sig) (h : MaxId db) : MaxId (push rs db ss) := by
+  unfold MaxId at h ⊢
+  simp only [push, List.map_append, List.foldl_append, List.map_cons, List.map_nil, List.foldl_cons,
+    List.foldl_nil, h, List.length_append, List.length_cons, List.length_nil]
+  omega
+
+theorem maxId_fold (rs : Bool) (acc : List Sig) : ∀ db, MaxId db → MaxId (acc.foldl (push rs) db) := by
+  induction acc with
+  | nil => intro db h; exact h
+  | cons s t ih => intro db h; exact ih _ (maxId_push rs db s h)
+
+theorem maxId_dbOf (rs : Bool) (acc : List Sig) : MaxId (dbOf rs acc) :=
+  maxId_fold rs acc SqlDb.empty (by simp [MaxId, SqlDb.empty])
+
+/-- with a NULL location the UNIQUE constraint never fires: a row always goes in, under the next rowid,
+    and that rowid is what `last_insert_rowid()` then reports (whatever it reported before) -/
+theorem insertRowOrIgnore_null (db : SqlDb) (r : Nat) (ss : Sig) (seed : Nat) (h : MaxId db) :
+    insertRowOrIgnore db r (mkRow ss none) seed =
+      ({ db with sketches := db.sketches ++ [{ id := db.sketches.length + 1, row := mkRow ss none, seed := seed }] },
+       db.sketches.length + 1) := by
+  unfold insertRowOrIgnore
+  simp [mkRow, nextRowid_eq db h]
+
+theorem insert_eq (rs : Bool) (acc : List Sig) (db : SqlDb) (r : Nat) (ss : Sig) (hmax : MaxId db) :
+    SqlIndex.insert rs { db := db, scaled := acc.head?.map (·.scaled), lastRowid := r } ss =
+      if sqlOk acc ss then .ok { db := push rs db ss, scaled := (acc ++ [ss]).head?.map (·.scaled),
+                                 lastRowid := db.sketches.length + 1 }
       else .err .valueError := by
   unfold SqlIndex.insert sqlOk
   by_cases h1 : ss.num = 0
@@ -45,10 +75,10 @@ theorem insert_eq (rs : Bool) (acc : List Sig) (db : SqlDb) (ss : Sig) :
     · simp [h1, h2]
     · have h2' : ss.track = false := by simpa using h2
       cases acc with
-      | nil => simp [h1, h2', push]
+      | nil => simp [h1, h2', push, insertRowOrIgnore_null db r ss _ hmax]
       | cons f t =>
         by_cases h3 : f.scaled = ss.scaled
-        · simp [h1, h2', h3, push]
+        · simp [h1, h2', h3, push, insertRowOrIgnore_null db r ss _ hmax]
         · simp [h1, h2', h3]
   · simp [h1]
 
@@ -71,22 +101,26 @@ theorem sameScaled_snoc (acc : List Sig) (ss : Sig) (h : SameScaled acc) (hok : 
       simp only [sqlOk, List.head?_cons, Bool.and_eq_true, decide_eq_true_eq] at hok
       exact hok.2.symm
 
-theorem sqlSessionAdds_eq (rs : Bool) (l : List Sig) : ∀ acc : List Sig,
-    sqlSessionAdds rs { db := dbOf rs acc, scaled := acc.head?.map (·.scaled) } l =
-      ({ db := dbOf rs (sqlSpecAdds acc l).1, scaled := (sqlSpecAdds acc l).1.head?.map (·.scaled) },
-       (sqlSpecAdds acc l).2) := by
+theorem sqlSessionAdds_eq (rs : Bool) (l : List Sig) : ∀ (acc : List Sig) (r : Nat),
+    (sqlSessionAdds rs { db := dbOf rs acc, scaled := acc.head?.map (·.scaled), lastRowid := r } l).1.db =
+        dbOf rs (sqlSpecAdds acc l).1 ∧
+    (sqlSessionAdds rs { db := dbOf rs acc, scaled := acc.head?.map (·.scaled), lastRowid := r } l).2 =
+        (sqlSpecAdds acc l).2 := by
   induction l with
-  | nil => intro acc; rfl
+  | nil => intro acc r; exact ⟨rfl, rfl⟩
   | cons ss rest ih =>
-    intro acc
-    simp only [sqlSessionAdds, insert_eq, sqlSpecAdds]
+    intro acc r
+    simp only [sqlSessionAdds, insert_eq rs acc _ r ss (maxId_dbOf rs acc), sqlSpecAdds]
     by_cases h : sqlOk acc ss = true
     · simp only [h, if_true]
       have e : push rs (dbOf rs acc) ss = dbOf rs (acc ++ [ss]) := by simp [dbOf, List.foldl_append]
-      rw [e, ih (acc ++ [ss])]
-    · simp only [h]
-      rw [ih acc]
-      rfl
+      rw [e]
+      obtain ⟨i1, i2⟩ := ih (acc ++ [ss]) ((dbOf rs acc).sketches.length + 1)
+      exact ⟨i1, by rw [i2]⟩
+    · have h' : sqlOk acc ss = false := by simpa using h
+      simp only [h', Bool.false_eq_true, if_false]
+      obtain ⟨i1, i2⟩ := ih acc r
+      exact ⟨i1, by rw [i2]⟩
 
 theorem sameScaled_adds (l : List Sig) : ∀ acc, SameScaled acc → SameScaled (sqlSpecAdds acc l).1 := by
   induction l with
@@ -123,7 +157,7 @@ theorem dedup_const (l : List Nat) (c : Nat) (h : ∀ a ∈ l, a = c) : dedup l 
     · simp [e]
 
 theorem open_dbOf (rs : Bool) (acc : List Sig) (h : SameScaled acc) :
-    SqlIndex.open (dbOf rs acc) = .ok { db := dbOf rs acc, scaled := acc.head?.map (·.scaled) } := by
+    SqlIndex.open (dbOf rs acc) = .ok { db := dbOf rs acc, scaled := acc.head?.map (·.scaled), lastRowid := 0 } := by
   have hrows : (dbOf rs acc).sketches.map (·.row.scaled) = acc.map (·.scaled) := by
     have := scaled_fold rs acc SqlDb.empty
     simpa [dbOf, SqlDb.empty] using this
@@ -152,7 +186,8 @@ theorem sqlSessions_eq (rs : Bool) (sessions : List (List Sig)) : ∀ acc, SameS
   | nil => intro acc _; rfl
   | cons l rest ih =>
     intro acc h
-    simp only [sqlSessions, open_dbOf rs acc h, sqlSessionAdds_eq, ih _ (sameScaled_adds l acc h), sqlSpecSessions]
+    have hadds := sqlSessionAdds_eq rs l acc 0
+    simp only [sqlSessions, open_dbOf rs acc h, hadds.1, hadds.2, ih _ (sameScaled_adds l acc h), sqlSpecSessions]
 
 /-! ### loading -/
 
@@ -300,5 +335,48 @@ theorem sqlSpecSessions_mem (sessions : List (List Sig)) : ∀ acc s, s ∈ (sql
       · exact Or.inl h''
       · exact Or.inr ⟨by simp [h''.1], h''.2⟩
     · exact Or.inr ⟨by simp [h'.1], h'.2⟩
+
+/-! ### append sessions -/
+
+theorem sqlSpecSessions_append (a b : List (List Sig)) : ∀ acc,
+    (sqlSpecSessions acc (a ++ b)).1 = (sqlSpecSessions (sqlSpecSessions acc a).1 b).1 := by
+  induction a with
+  | nil => intro acc; rfl
+  | cons l rest ih => intro acc; simp only [List.cons_append, sqlSpecSessions, ih]
+
+theorem sqlSpecAdds_prefix (l : List Sig) : ∀ acc, ∃ new, (sqlSpecAdds acc l).1 = acc ++ new ∧ ∀ s ∈ new, s ∈ l := by
+  induction l with
+  | nil => intro acc; exact ⟨[], by simp [sqlSpecAdds], by simp⟩
+  | cons x t ih =>
+    intro acc
+    simp only [sqlSpecAdds]
+    by_cases hok : sqlOk acc x = true
+    · simp only [hok, if_true]
+      obtain ⟨new, h1, h2⟩ := ih (acc ++ [x])
+      refine ⟨x :: new, by rw [h1]; simp, ?_⟩
+      intro s hs
+      simp only [List.mem_cons] at hs ⊢
+      rcases hs with hs | hs
+      · exact Or.inl hs
+      · exact Or.inr (h2 s hs)
+    · simp only [hok]
+      obtain ⟨new, h1, h2⟩ := ih acc
+      exact ⟨new, h1, fun s hs => by simp [h2 s hs]⟩
+
+theorem sqlSpecSessions_prefix (sessions : List (List Sig)) : ∀ acc,
+    ∃ new, (sqlSpecSessions acc sessions).1 = acc ++ new ∧ ∀ s ∈ new, s ∈ sessions.flatten := by
+  induction sessions with
+  | nil => intro acc; exact ⟨[], by simp [sqlSpecSessions], by simp⟩
+  | cons l rest ih =>
+    intro acc
+    obtain ⟨n1, h1, m1⟩ := sqlSpecAdds_prefix l acc
+    obtain ⟨n2, h2, m2⟩ := ih (sqlSpecAdds acc l).1
+    refine ⟨n1 ++ n2, by simp only [sqlSpecSessions]; rw [h2, h1]; simp, ?_⟩
+    intro s hs
+    simp only [List.mem_append] at hs
+    simp only [List.flatten_cons, List.mem_append]
+    rcases hs with hs | hs
+    · exact Or.inl (m1 s hs)
+    · exact Or.inr (m2 s hs)
 
 end Sm.Storage
